@@ -53,3 +53,77 @@ package io
 //@   prop C17
 //@   arith bv
 //@   ensures[wire_len] result == pbUnixfsDirData(unixPermsOf(mode), mode != 0, !timeIsZero(mtime), timeUnix(mtime), timeNanos(mtime))
+
+// ---- incremental size tracking of BasicDirectory (SizeEstimationBlock)
+//
+// linkEntryBytes (declared with the ProtoNode contracts) is the wire size of one link
+//@ axiom entry_def (n int, c cid.Cid, t uint64): linkEntryBytes(n, c, t) == pbLinkEntry(n, cidByteLen(c), t)
+//
+//@ macro blockMode(d) = ite(d.sizeEstimation != nil, deref(d.sizeEstimation), HAMTSizeEstimation) == SizeEstimationBlock
+//@ macro linksMode(d) = ite(d.sizeEstimation != nil, deref(d.sizeEstimation), HAMTSizeEstimation) == SizeEstimationLinks
+//@ macro optEntry(name, l) = ite(l != nil, linkEntryBytes(len(name), l.Cid, l.Size), 0)
+//@ macro dataBytes(d) = pbUnixfsDirData(unixPermsOf(d.mode), d.mode != 0, !timeIsZero(d.mtime), timeUnix(d.mtime), timeNanos(d.mtime))
+// the invariant of the property: in block mode the running estimate is the exact wire size
+//@ macro estInv(d) = blockMode(d) ==> d.estimatedSize == dataBytes(d) + linkBytes(d.node)
+// machine-arithmetic side condition: the directory block is smaller than 2^50 bytes
+//@ macro estSmall(d) = 0 <= linkBytes(d.node) && linkBytes(d.node) < 1125899906842624
+
+//@ lemma[C17] entry_bounds (n int, c int, t uint64): 0 <= n && n < 2147483648 && 0 <= c && c < 2147483648 ==> 0 < pbLinkEntry(n, c, t) && pbLinkEntry(n, c, t) < 8589934592
+//@ lemma[C17] data_bounds (p uint32, hm bool, ht bool, s int64, ns int): 0 < pbUnixfsDirData(p, hm, ht, s, ns) && pbUnixfsDirData(p, hm, ht, s, ns) < 64
+
+//@ func (*BasicDirectory).GetSizeEstimationMode
+//@   inline
+
+//@ func (*BasicDirectory).computeEstimatedSizeAndTotalLinks
+//@   prop C17
+//@   arith bv
+//@   opaque pbLinkEntry pbUnixfsDirData
+//@   requires d != nil && d.node != nil
+//@   modifies d.estimatedSize, d.totalLinks, fields(d.node)
+
+//@ func (*BasicDirectory).updateEstimatedSize
+//@   prop C17
+//@   arith bv
+//@   opaque pbLinkEntry pbUnixfsDirData
+//@   requires d != nil && d.node != nil
+//@   modifies d.estimatedSize, d.totalLinks, fields(d.node)
+//@   ensures[block_delta] blockMode(d) && old(d.estimatedSize) - old(optEntry(name, oldLink)) + old(optEntry(name, newLink)) >= 0 ==>
+//@     | d.estimatedSize == old(d.estimatedSize) - old(optEntry(name, oldLink)) + old(optEntry(name, newLink)) && d.totalLinks == old(d.totalLinks)
+//@   ensures[disabled] !blockMode(d) && !linksMode(d) && old(d.estimatedSize) >= 0 ==> d.estimatedSize == old(d.estimatedSize) && d.totalLinks == old(d.totalLinks)
+
+// legacy link-size estimate: a function value installed at init time (see size.go)
+//@ func ext global:github.com/ipfs/boxo/ipld/unixfs/private/linksize.LinkSizeFunction
+//@   pure
+
+//@ func (*BasicDirectory).RemoveChild
+//@   prop C17 C15
+//@   arith bv
+//@   opaque pbLinkEntry pbUnixfsDirData
+//@   use data_bounds
+//@   requires d != nil && d.node != nil
+//@   requires[inv] estInv(d)
+//@   requires[small] estSmall(d) && namedBytes(d.node, name) <= linkBytes(d.node) && 0 <= namedBytes(d.node, name)
+//@   modifies d.estimatedSize, d.totalLinks, fields(d.node), linkBytes(d.node), namedBytes(d.node, name)
+//@   ensures[inv] estInv(d)
+//@   ensures[count] err == nil && blockMode(d) ==> d.totalLinks == old(d.totalLinks) - 1
+//@   ensures[removed] err == nil ==> namedBytes(d.node, name) == 0 && linkBytes(d.node) == old(linkBytes(d.node)) - old(namedBytes(d.node, name))
+//@   ensures[absent] old(namedBytes(d.node, name)) == 0 ==> err == os.ErrNotExist
+//@   ensures[failed] err != nil ==> d.totalLinks == old(d.totalLinks) && d.estimatedSize == old(d.estimatedSize)
+//@   ensures[present] old(namedBytes(d.node, name)) > 0 ==> err == nil
+//@   ensures[failed_links] err != nil ==> linkBytes(d.node) == old(linkBytes(d.node))
+
+//@ func (*BasicDirectory).addLinkChild
+//@   prop C17 C15
+//@   arith bv
+//@   opaque pbLinkEntry pbUnixfsDirData
+//@   use data_bounds entry_bounds
+//@   requires d != nil && d.node != nil && link != nil
+//@   requires[inv] estInv(d)
+//@   requires[small] estSmall(d) && namedBytes(d.node, name) <= linkBytes(d.node) && 0 <= namedBytes(d.node, name)
+//@   requires[lens] len(name) < 2147483648 && 0 <= cidByteLen(link.Cid) && cidByteLen(link.Cid) < 2147483648
+//@   modifies d.estimatedSize, d.totalLinks, fields(d.node), linkBytes(d.node), namedBytes(d.node, name)
+//@   ensures[inv] estInv(d)
+//@   ensures[added] err == nil ==> linkBytes(d.node) == old(linkBytes(d.node)) - old(namedBytes(d.node, name)) + old(linkEntryBytes(len(name), link.Cid, link.Size))
+//@   ensures[count_new] err == nil && blockMode(d) && old(namedBytes(d.node, name)) == 0 ==> d.totalLinks == old(d.totalLinks) + 1
+//@   ensures[count_replace] err == nil && blockMode(d) && old(namedBytes(d.node, name)) > 0 ==> d.totalLinks == old(d.totalLinks)
+//@   ensures[maxlinks] err == nil && old(namedBytes(d.node, name)) == 0 && d.maxLinks > 0 ==> old(d.totalLinks) + 1 <= d.maxLinks
